@@ -34,7 +34,7 @@ N = {'quick': 4000, 'thorough': 90000}
 NT_RULE = ('one case = one fit: class x constructor x source (StatMech gas/adsorbate over the C01 '
            'generator, constant-Cp, zero-Cp, random polynomial of the target family) x window '
            '100<=T_low<T_high<=3000 (width>=100) x n_T 15..200 x grid (linear/geometric/jittered, '
-           'optionally shuffled) x T_mid (None/scalar/list) x NASA-9 interval count 1..3 x Shomate '
+           'ascending / shuffled / strictly descending) x explicit references (exact 0.0, -0.0, whole numbers) x T_mid (None/scalar/list) x NASA-9 interval count 1..3 x Shomate '
            'unit x T_ref; drawn per case index from a seeded PRNG after a list of directed cases. '
            'non-trivial = non-degenerate source with T_ref != window midpoint, or a zero-Cp '
            '(degenerate path) case; distinct = distinct canonical JSON of the spec')
@@ -57,7 +57,21 @@ REQUIRED_CLASSES = (['%s.%s' % (c, k) for c in CLASSES3 for k in ('from_data', '
                        'tref:T_low', 'tref:T_high', 'tref:midpoint', 'tref:interior',
                        'grid:unsorted', 'grid:sorted', 'window:100-3000', 'window:width100',
                        'n_T:15', 'n_T:200']
-                    + ['Shomate:units:%s' % u for u in UNITS])
+                    + ['Shomate:units:%s' % u for u in UNITS]
+                    # explicit references that are exactly zero / negative zero / whole numbers
+                    + ['%s:ref:%s' % (c, m) for c in CLASSES3
+                       for m in ('H=0', 'S=0', 'both=0', 'negzero', 'int0', 'int')]
+                    # order of the temperature array handed to from_data
+                    + ['%s:grid:%s' % (c, o) for c in CLASSES3
+                       for o in ('ascending', 'shuffled', 'descending')]
+                    # T_ref exactly on T_low, T_high and every interior break (smooth source)
+                    + ['Nasa.from_data:nseg2:tref@%s' % a for a in ('T_low', 'T_high', 'break0')]
+                    + ['Nasa.from_model:nseg2:tref@break0']
+                    + ['Nasa9.from_data:nseg1:tref@%s' % a for a in ('T_low', 'T_high')]
+                    + ['Nasa9.from_data:nseg2:tref@%s' % a for a in ('T_low', 'T_high', 'break0')]
+                    + ['Nasa9.from_data:nseg3:tref@%s' % a for a in ('T_low', 'T_high', 'break0', 'break1')]
+                    + ['Nasa9.from_model:nseg%d:tref@T_low' % n for n in (1, 2, 3)]
+                    + ['Shomate.from_data:nseg1:tref@%s' % a for a in ('T_low', 'T_high')])
 REQUIRED_BRANCHES = ['Nasa._fit_HoRT:T_ref<=T_mid', 'Nasa._fit_HoRT:T_ref>T_mid',
                      'Nasa._fit_SoR:T_ref<=T_mid', 'Nasa._fit_SoR:T_ref>T_mid',
                      'Nasa._fit_CpoR:zeroCp', 'Nasa._fit_CpoR:fit',
@@ -71,9 +85,14 @@ REQUIRED_PROBES = ['Nasa.from_data', 'Nasa.from_model', 'Nasa9.from_data', 'Nasa
                    'nasa._calc_T_mid_mse_nasa9',
                    'shomate._fit_CpoR', 'shomate._fit_HoRT', 'shomate._fit_SoR']
 ASSUMPTIONS = [
-    'T handed to from_data is a numpy array of distinct temperatures (sorted or shuffled); with a '
-    'shuffled array T_mid is always given explicitly (the T_mid=None screen of Nasa indexes T by '
-    'position) and zero-Cp data are never shuffled',
+    'T handed to from_data is a numpy array of distinct temperatures (ascending, strictly '
+    'descending or shuffled); with a shuffled array T_mid is always given explicitly (the '
+    'T_mid=None screen of Nasa indexes T by position) and zero-Cp data are never shuffled',
+    'references given directly to from_data may be any numbers, in particular exactly 0.0, -0.0 '
+    'and Python ints (spec key ref); expected H and S curves are the source curves moved onto '
+    'the given reference',
+    'the per-position classes Class.ctor:nsegN:tref@T_low|T_high|breakK are counted only for '
+    'non-degenerate StatMech sources, where anchoring a neighbouring interval is visible',
     'every segment of a requested break layout holds enough data to determine the Cp polynomial: '
     '>=6 points on either side of every NASA-7 T_mid candidate, >=9 points per NASA-9 interval in '
     'from_data; NASA-9 intervals requested from from_model are at least min(max(40 K, 12 % of the '
@@ -162,6 +181,8 @@ def grid(spec):
         if idx[0] == 0:                       # make sure T[0] is not the minimum
             idx[0], idx[1] = idx[1], idx[0]
         T = T[idx]
+    elif g.get('order') == 'desc':            # strictly descending: T[0] = max, T[-1] = min
+        T = T[::-1].copy()
     return T
 
 
@@ -319,7 +340,9 @@ def _between(rng, Ts, i, on_grid=None):
 
 def make_case(rng, cls=None, ctor=None, src=None, window=None, n_T=None, T_mid_mode=None,
               nseg=None, fit_T_mid=None, tref_mode=None, units=None, shuffle=None, gridkind=None,
-              tier='quick'):
+              tier='quick', order=None, ref_mode=None, T_mid_at_mid=False):
+    """order: None (draw) | 'keep' | 'desc';  ref_mode: None (draw) | 'source' | one of REF_MODES;
+    T_mid_at_mid: scalar NASA-7 T_mid exactly at the window midpoint (= T_ref of from_model)"""
     import numpy as np
     cls = cls or rng.choices(CLASSES3, [4, 5, 3])[0]
     ctor = ctor or rng.choice(['from_data', 'from_model'])
@@ -378,6 +401,8 @@ def make_case(rng, cls=None, ctor=None, src=None, window=None, n_T=None, T_mid_m
             idx = sorted(rng.sample(range(6, n_T - 7), min(k, n_T - 13)))
             cands = [_between(rng, Ts, i) for i in idx]
             if mode == 'scalar':
+                if T_mid_at_mid:
+                    cands[0] = 0.5 * (lo + hi)
                 spec['T_mid'] = cands[0]
                 breaks_known = [cands[0]]
             else:
@@ -417,6 +442,8 @@ def make_case(rng, cls=None, ctor=None, src=None, window=None, n_T=None, T_mid_m
             breaks_known = br
         if mode == 'list' and ctor == 'from_data':
             breaks_known = br
+        if mode == 'scalar' and ctor == 'from_data':
+            breaks_known = [br[0]]
     else:
         spec['units'] = units or rng.choice(UNITS)
         breaks_known = []
@@ -424,8 +451,11 @@ def make_case(rng, cls=None, ctor=None, src=None, window=None, n_T=None, T_mid_m
     if ctor == 'from_data':
         tm = tref_mode or rng.choices(['low', 'high', 'mid', 'break', 'first', 'last', 'any', 'grid'],
                                       [1, 1, 1, 2, 2, 3, 4, 1])[0]
-        if tm in ('break', 'first', 'last') and not breaks_known:
+        if tm in ('break', 'first', 'last', 'break0', 'break1') and not breaks_known:
             tm = 'any'
+        if tm in ('break0', 'break1'):
+            T_ref = breaks_known[min(int(tm[-1]), len(breaks_known) - 1)]
+            tm = 'given'
         if tm == 'low':
             T_ref = lo
         elif tm == 'high':
@@ -440,11 +470,46 @@ def make_case(rng, cls=None, ctor=None, src=None, window=None, n_T=None, T_mid_m
             T_ref = round(rng.uniform(breaks_known[-1], hi), 3)
         elif tm == 'grid':
             T_ref = float(Ts[rng.randrange(n_T)])
+        elif tm == 'given':
+            pass
         else:
             T_ref = round(rng.uniform(lo, hi), 3)
         spec['T_ref'] = min(max(float(T_ref), lo), hi)
     spec['source'] = _gen_source(rng, src, cls, lo, hi)
+    if ctor == 'from_data':
+        # strictly descending temperature array
+        if order is None:
+            order = 'desc' if (not shuffled and rng.random() < 0.2) else 'keep'
+        if order == 'desc' and not shuffled:
+            spec['grid']['order'] = 'desc'
+        # explicit reference values instead of the source's own H(T_ref), S(T_ref)
+        if ref_mode is None:
+            ref_mode = rng.choice(REF_MODES) if rng.random() < 0.15 else 'source'
+        if ref_mode != 'source':
+            spec['ref'] = make_ref(rng, ref_mode)
     return spec
+
+
+REF_MODES = ['H=0', 'S=0', 'both=0', 'negzero', 'int0', 'int']
+
+
+def make_ref(rng, ref_mode):
+    """explicit reference values (None = the source's own value).  An element in its reference
+    state has H_f = 0 exactly; tabulated references are often whole numbers."""
+    if ref_mode == 'H=0':
+        return {'mode': ref_mode, 'HoRT': 0.0, 'SoR': None}
+    if ref_mode == 'S=0':
+        return {'mode': ref_mode, 'HoRT': None, 'SoR': 0.0}
+    if ref_mode == 'both=0':
+        return {'mode': ref_mode, 'HoRT': 0.0, 'SoR': 0.0}
+    if ref_mode == 'negzero':
+        return {'mode': ref_mode, 'HoRT': -0.0, 'SoR': -0.0}
+    if ref_mode == 'int0':
+        k = rng.randrange(3)
+        return {'mode': ref_mode, 'HoRT': 0 if k != 1 else rng.randint(-40, 40),
+                'SoR': 0 if k != 0 else rng.randint(1, 60)}
+    h = rng.choice([-1, 1]) * rng.randint(1, 40)
+    return {'mode': 'int', 'HoRT': h, 'SoR': rng.randint(1, 60)}
 
 
 def directed(tier):
@@ -453,6 +518,8 @@ def directed(tier):
 
     def mk(**kw):
         k[0] += 1
+        kw.setdefault('order', 'keep')
+        kw.setdefault('ref_mode', 'source')
         D.append(make_case(random.Random('C03-directed-%d' % k[0]), tier=tier, **kw))
         return D[-1]
 
@@ -547,6 +614,46 @@ def directed(tier):
         mk(cls='Shomate', ctor='from_data', src='statmech_gas' if i % 2 else 'poly', units=u,
            tref_mode='any')
         mk(cls='Shomate', ctor='from_model', src='statmech_ads' if i % 2 else 'statmech_gas', units=u)
+    # --- explicit references that are exactly 0.0 / -0.0 / whole numbers (non-zero Cp), every
+    #     class that takes references, T_ref on either side of the break
+    for cls in CLASSES3:
+        kw = dict(T_mid_mode='list') if cls == 'Nasa9' else dict(T_mid_mode='scalar') if cls == 'Nasa' else {}
+        for i, rm in enumerate(REF_MODES):
+            mk(cls=cls, ctor='from_data', src='statmech_gas' if i % 2 else 'statmech_ads', ref_mode=rm,
+               tref_mode='first' if i % 2 else 'last', nseg=2 if cls == 'Nasa9' else None, **kw)
+            mk(cls=cls, ctor='from_data', src='poly' if i % 2 else 'const', ref_mode=rm,
+               tref_mode='last' if i % 2 else 'any', nseg=3 if cls == 'Nasa9' else None, **kw)
+    mk(cls='Nasa', ctor='from_data', src='statmech_gas', T_mid_mode='None', ref_mode='both=0')
+    mk(cls='Nasa', ctor='from_data', src='statmech_ads', T_mid_mode='list', ref_mode='H=0', tref_mode='break')
+    mk(cls='Nasa9', ctor='from_data', src='statmech_gas', T_mid_mode='list', nseg=1, ref_mode='both=0')
+    # --- T_ref exactly on T_low, T_high and every interior break, smooth sources, wide windows
+    for src in ('statmech_gas', 'statmech_ads'):
+        for win in ('full', 'any'):
+            for tm in ('low', 'high', 'break0'):
+                mk(cls='Nasa', ctor='from_data', src=src, T_mid_mode='scalar', tref_mode=tm, window=win)
+                mk(cls='Nasa9', ctor='from_data', src=src, T_mid_mode='list', nseg=2, tref_mode=tm, window=win)
+            for tm in ('low', 'high', 'break0', 'break1'):
+                mk(cls='Nasa9', ctor='from_data', src=src, T_mid_mode='list', nseg=3, tref_mode=tm, window=win)
+            for tm in ('low', 'high'):
+                mk(cls='Nasa9', ctor='from_data', src=src, T_mid_mode='list', nseg=1, tref_mode=tm, window=win)
+                mk(cls='Shomate', ctor='from_data', src=src, tref_mode=tm, window=win)
+            mk(cls='Nasa', ctor='from_model', src=src, T_mid_mode='scalar', T_mid_at_mid=True, window=win)
+            for nseg in (1, 2, 3):
+                mk(cls='Nasa9', ctor='from_model', src=src, T_mid_mode='list', nseg=nseg, fit_T_mid=False,
+                   window=win)
+    mk(cls='Nasa9', ctor='from_data', src='statmech_gas', T_mid_mode='scalar', nseg=2, tref_mode='high')
+    mk(cls='Nasa9', ctor='from_data', src='statmech_ads', T_mid_mode='scalar', nseg=2, tref_mode='break0')
+    # --- strictly descending and shuffled temperature arrays, every class
+    for cls in CLASSES3:
+        for src in ('statmech_gas', 'poly', 'const'):
+            kw = dict(T_mid_mode='list') if cls == 'Nasa9' else {}
+            mk(cls=cls, ctor='from_data', src=src, order='desc', shuffle=False, **kw)
+        mk(cls=cls, ctor='from_data', src='statmech_ads', shuffle=True,
+           **(dict(T_mid_mode='list') if cls != 'Shomate' else {}))
+    mk(cls='Nasa', ctor='from_data', src='statmech_gas', T_mid_mode='None', order='desc', shuffle=False)
+    mk(cls='Nasa', ctor='from_data', src='zero', T_mid_mode='scalar', order='desc', shuffle=False)
+    mk(cls='Nasa9', ctor='from_data', src='zero', T_mid_mode='list', nseg=2, order='desc', shuffle=False)
+    mk(cls='Shomate', ctor='from_data', src='zero', order='desc', shuffle=False)
     return D
 
 
@@ -712,12 +819,23 @@ def run_case(spec, ctx):
             T, Cp, shuffled = T[order], Cp[order], False
             ctx.extra['degenerate_data_sorted_before_use'] = \
                 ctx.extra.get('degenerate_data_sorted_before_use', 0) + 1
-        ctx.cls('grid:unsorted' if shuffled else 'grid:sorted')
+        descending = spec['grid'].get('order') == 'desc' and not spec['grid'].get('shuffle')
+        ctx.cls('grid:unsorted' if (shuffled or descending) else 'grid:sorted')
+        ctx.cls('%s:grid:%s' % (cls, 'shuffled' if shuffled else 'descending' if descending else 'ascending'))
         T_ref = float(spec['T_ref'])
         ref = (T_ref, src.H(T_ref), src.S(T_ref))
+        if spec.get('ref'):
+            # references given directly (exact zeros, negative zero, Python ints are passed as is)
+            rs = spec['ref']
+            ref = (T_ref, ref[1] if rs.get('HoRT') is None else rs['HoRT'],
+                   ref[2] if rs.get('SoR') is None else rs['SoR'])
+            if not bool(np.all(np.abs(Cp) <= 1e-8)):
+                ctx.cls('%s:ref:%s' % (cls, rs.get('mode', 'given')))
     else:
         T = Cp = ref = None
     mech0 = {'class': cls, 'ctor': ctor, 'src': kind, 'T_mid': mode}
+    if spec.get('ref'):
+        mech0['ref'] = spec['ref'].get('mode', 'given')
     if cls == 'Shomate':
         mech0['units'] = spec['units']
         mech0['win'] = window_class(lo, hi)
@@ -770,6 +888,13 @@ def run_case(spec, ctx):
         mech['nseg'] = nseg
         ctx.cls('Nasa9:nseg:%d' % nseg)
     ctx.cls('%s:tref:%s' % (cls, tpos))
+    if kind in ('statmech_gas', 'statmech_ads') and not zero_path:
+        # exact coincidences of T_ref with an edge, recorded where anchoring the wrong interval
+        # is visible (smooth non-polynomial source)
+        for i, e in enumerate(edges):
+            if T_ref == e:
+                at = 'T_low' if i == 0 else 'T_high' if i == len(edges) - 1 else 'break%d' % (i - 1)
+                ctx.cls('%s.%s:nseg%d:tref@%s' % (cls, ctor, nseg, at))
     mid = 0.5 * (lo + hi)
     ctx.cls('tref:T_low' if T_ref == lo else 'tref:T_high' if T_ref == hi else
             'tref:midpoint' if abs(T_ref - mid) < 1e-9 else 'tref:interior')
